@@ -110,6 +110,9 @@ func deliveryPoints(doc []byte) (pts []int, ranges [][2]int) {
 
 // genStream draws one streaming scenario.
 func genStream(r *Rng, prop, phase string, knob bool, pEarly, pErr float64) []*Scenario {
+	if r.Chance(0.012) {
+		return genProcfs(r, prop, phase, knob)
+	}
 	doc := genDoc(r, docMax(r))
 	s := &Scenario{Property: prop, Phase: phase, Doc: doc}
 	pts, _ := deliveryPoints(doc)
@@ -176,6 +179,33 @@ var stdReaders = []string{"bytes.Buffer", "bytes.Buffer", "bytes.Reader", "strin
 // be lazy, and a parser that drains an io.WriterTo reader at construction -
 // legitimately - sees an empty stream there (false alarm on the benign patch
 // newblockparser-writerto-fastpath, see DESIGN.md).
+
+// genProcfs: a tiny NUL-free document served by a procfs file (regular file,
+// Stat size 0, content delivered by reads): /proc/self/comm after the harness
+// has set the process name to the document.
+func genProcfs(r *Rng, prop, phase string, knob bool) []*Scenario {
+	var doc []byte
+	for n := r.Range(1, 8); n > 0; n-- {
+		piece := r.Pick(tinyAlphabet)
+		if strings.IndexByte(piece, 0) >= 0 || len(doc)+len(piece) > 15 {
+			continue
+		}
+		doc = append(doc, piece...)
+	}
+	if len(doc) == 0 {
+		doc = []byte("a")
+	}
+	doc = append(doc, '\n')
+	s := &Scenario{Property: prop, Phase: phase, Doc: doc}
+	rs := &ReaderScn{Terminal: "separate", ExtraCalls: r.Range(1, 4), Family: "whole", Std: "procfs-comm"}
+	rs.Fault.Kind = "none"
+	rs.Consumer = genConsumer(r)
+	s.Reader = rs
+	if knob {
+		s.Knobs = map[string]int{"chunkSize": chunkKnobs[r.Intn(len(chunkKnobs))]}
+	}
+	return []*Scenario{s}
+}
 
 var scribbleKinds = []string{"garbage", "newline", "nul", "data"}
 
@@ -1144,7 +1174,11 @@ func streamStats(s *Scenario, obs *streamObs, st *runStats) (nontrivial bool) {
 		st.Probes["reader_offers_WriterTo_ByteReader_Len"]++
 	}
 	if s.Reader.Std != "" {
-		st.Probes["reader_is_std_"+s.Reader.Std]++
+		if rd.FileFallback {
+			st.Probes["reader_std_value_unavailable_in_memory_reader_stood_in_"+s.Reader.Std]++
+		} else {
+			st.Probes["reader_is_std_"+s.Reader.Std]++
+		}
 		if rd.Reused {
 			st.Faults["caller_reused_reader_storage_after_parse"]++
 		}
